@@ -15,7 +15,8 @@ CHECKS = {
              "argument against generic integer data in the other: non-zero entries only in the predicted block / channel "
              "/ reference at the predicted single lag, one weight per entry (one overall for cov_mm, a function of the lag "
              "for cov_R), bilinearity on random pairs, and for the data-driven method the Gram identity with the projection "
-             "assembled from the specification's index sets; SSIResult.H of class runs equals build_hank(data, data[ref]).",
+             "assembled from the specification's index sets; SSIResult.H of class runs equals build_hank(data, data[ref]). "
+             "Thorough tier also proves the lag / range lemmas for all sizes with TLAPS (HankelLag.tla, 4 obligations).",
         ref="DESIGN.md §4.4, §5 C12",
         note="Trusted: TLC, numpy for the projection Gram matrix. The number of averaged products is not fixed by the "
              "property (a zero entry is accepted only at the first / last product of the model's range).",
@@ -81,12 +82,15 @@ CHECKS = {
              "every reachable state/step up to the length bound, and every transition it explores is executed on real "
              "SingleSetup / MultiSetup_PreGER objects and compared with the abstract post-state (data vs. scipy "
              "interpretation of the term, fs/dt/Ndat/T, user arrays and initial copy bit-equal). Exhaustive for all "
-             "call sequences up to length 3 (quick) / 4 (thorough), sampled to length 6.",
+             "call sequences up to length 3 (quick) / 4 (thorough), sampled to length 6. Direction B: executions recorded "
+             "from the repository's own test_plot_data and from seeded random drivers (7..10 calls over the whole API) are "
+             "validated by TLC against TraceSetup.tla. Thorough tier also discharges MetaTruthful as an inductive invariant "
+             "of the integer core (SetupMeta.tla) with Apalache.",
         ref="DESIGN.md §4.1, §5 C14",
         note="Trusted: scipy.signal (interpretation of the data term), TLC, harness/setup_world.py. Record lengths "
              "are chosen so that every scipy call in the alphabet is admissible. One listed known finding "
              "(SingleSetup.T after decimate, pinned by a baseline test).",
-        technique="TLC model checking of Setup.tla + replay of every emitted transition on real setup objects",
+        technique="TLC model checking of Setup.tla + replay of every emitted transition on real setup objects + TLC trace validation (TraceSetup.tla) of recorded executions",
     ),
     "C15": dict(
         text="Setup.tla (orchestration alphabets: add / run_by_name / run_all / mpe / save+load) is model-checked for "
@@ -95,11 +99,13 @@ CHECKS = {
              "variants) and each stored result is compared bit-exactly with the same algorithm run alone in a fresh "
              "setup on the scipy interpretation of the bound data term; Poser.tla enumerates the PoSER constructor's "
              "decision table (0..3 setups x 0..2 algorithms [type, not run/run/extracted] x 0..3 names, 4 setups "
-             "sampled) and every configuration is built from real objects: Built iff Accept, else ValueError.",
+             "sampled) and every configuration is built from real objects: Built iff Accept, else ValueError. Direction B: "
+             "recorded random behaviours (gating, run / mpe flags, registry order, save / load) validated against "
+             "TraceSetup.tla.",
         ref="DESIGN.md §4.1, §4.3, §5 C15",
         note="Trusted: TLC, scipy (data term), pickle, numpy.array_equal. Bit-equality is demanded only inside one "
              "process with single-threaded BLAS. 'nothing is stored' is read as: no result object is stored.",
-        technique="TLC model checking of Setup.tla / Poser.tla + replay of every transition on real setups and algorithms",
+        technique="TLC model checking of Setup.tla / Poser.tla + replay of every transition on real setups and algorithms + TLC trace validation of recorded executions",
     ),
     "C16": dict(
         text="Pick.tla models the picker as a state machine over key/mouse events with the selection as a multiset "
@@ -107,11 +113,12 @@ CHECKS = {
              "NoOpWithoutModifier, DeselectShrinksByOne, NearestGoes; every transition is delivered as a synthetic "
              "matplotlib event to a real head-less SelFromPlot (SSI, pLSCF, FDD variants) and lists + marker artist "
              "are compared with the abstract selection; complete behaviours are replayed inside the real "
-             "mpe_from_plot of SSIcov / pLSCF / FDD and the extracted modes must be the selected cells.",
+             "mpe_from_plot of SSIcov / pLSCF / FDD and the extracted modes must be the selected cells. Direction B: "
+             "recorded runs of the real dialog (10..14 events on 5 x 6 tables) validated against TracePick.tla.",
         ref="DESIGN.md §4.6, §5 C16",
         note="Trusted: TLC, harness/headless.py (Tk stand-ins; events enter through the dialog's own canvas wiring). "
              "Exact ties may resolve either way. Diagram drawing is stubbed during the walk (real in the hand-over).",
-        technique="TLC model checking of Pick.tla + replay of every event sequence on the real dialog and mpe_from_plot",
+        technique="TLC model checking of Pick.tla + replay of every event sequence on the real dialog and mpe_from_plot + TLC trace validation (TracePick.tla) of recorded dialog runs",
     ),
     "C01": dict(
         text="Ident.tla (pipelines single / real): TLC enumerates systems (subsets of a 10-mode catalogue with real and complex "
